@@ -1,0 +1,131 @@
+//! C10: wrappers around the crate-private relay frame codec functions and a
+//! client-side [`Conn`] on a loopback TCP connection (to reach `Conn::start_send`).
+//!
+//! Nothing here re-implements any logic: every function calls the real item.
+#![cfg(all(feature = "server", not(wasm_browser)))]
+
+use std::pin::Pin;
+
+use bytes::Bytes;
+use n0_future::{Sink, SinkExt};
+use tokio::net::{TcpListener, TcpStream};
+
+use crate::{
+    KeyCache,
+    client::{
+        conn::{Conn, SendError},
+        streams::{MaybeTlsStream, ProxyStream},
+    },
+    http::ProtocolVersion,
+    protos::{
+        common::FrameTypeError,
+        relay::{ClientToRelayMsg, Error, RelayToClientMsg},
+        streams::WsBytesFramed,
+    },
+};
+
+/// Small code per `protos::relay::Error` variant (the numbering of the Coq model).
+pub fn error_code(e: &Error) -> u64 {
+    match e {
+        Error::FrameTooLarge { .. } => 1,
+        Error::FrameTypeError { source, .. } => match source {
+            FrameTypeError::UnexpectedEnd { .. } => 2,
+            FrameTypeError::UnknownFrameType { .. } => 3,
+        },
+        Error::InvalidPublicKey { .. } => 4,
+        Error::InvalidFrame { .. } => 5,
+        Error::InvalidFrameType { .. } => 6,
+        Error::InvalidProtocolMessageEncoding { .. } => 7,
+        Error::FrameNotAllowedInVersion { .. } => 8,
+        Error::TooSmall { .. } => 9,
+        Error::UnexpectedFrame { .. } => 10,
+    }
+}
+
+/// `RelayToClientMsg::from_bytes`
+pub fn r2c_from_bytes(
+    content: Bytes,
+    cache: &KeyCache,
+    version: ProtocolVersion,
+) -> Result<RelayToClientMsg, u64> {
+    RelayToClientMsg::from_bytes(content, cache, version).map_err(|e| error_code(&e))
+}
+
+/// `ClientToRelayMsg::from_bytes`
+pub fn c2r_from_bytes(content: Bytes, cache: &KeyCache) -> Result<ClientToRelayMsg, u64> {
+    ClientToRelayMsg::from_bytes(content, cache).map_err(|e| error_code(&e))
+}
+
+/// `RelayToClientMsg::to_bytes`
+pub fn r2c_to_bytes(m: &RelayToClientMsg) -> Vec<u8> {
+    m.to_bytes().to_vec()
+}
+
+/// `RelayToClientMsg::encoded_len`
+pub fn r2c_encoded_len(m: &RelayToClientMsg) -> usize {
+    m.encoded_len()
+}
+
+/// `ClientToRelayMsg::to_bytes`
+pub fn c2r_to_bytes(m: &ClientToRelayMsg) -> Vec<u8> {
+    m.to_bytes().to_vec()
+}
+
+/// `ClientToRelayMsg::encoded_len`
+pub fn c2r_encoded_len(m: &ClientToRelayMsg) -> usize {
+    m.encoded_len()
+}
+
+/// A real client-side `Conn` whose websocket runs over a loopback TCP connection.
+/// The peer end is drained by a background task and never answers.
+pub struct ClientConn {
+    conn: Conn,
+    _drain: tokio::task::JoinHandle<()>,
+}
+
+impl ClientConn {
+    /// Opens the loopback connection and wraps it exactly like `Conn::new` does
+    /// (minus the handshake, which the sink does not depend on).
+    pub async fn open(version: ProtocolVersion) -> std::io::Result<Self> {
+        let listener = TcpListener::bind("127.0.0.1:0").await?;
+        let addr = listener.local_addr()?;
+        let (client, accepted) = tokio::join!(TcpStream::connect(addr), listener.accept());
+        let client = client?;
+        let (mut peer, _) = accepted?;
+        let drain = tokio::spawn(async move {
+            let mut sink = tokio::io::sink();
+            let _ = tokio::io::copy(&mut peer, &mut sink).await;
+        });
+        let io = tokio_websockets::ClientBuilder::new()
+            .limits(
+                tokio_websockets::Limits::default()
+                    .max_payload_len(Some(crate::protos::relay::MAX_FRAME_SIZE)),
+            )
+            .take_over(MaybeTlsStream::Raw(ProxyStream::Raw(client)));
+        Ok(Self {
+            conn: Conn {
+                conn: WsBytesFramed { io },
+                key_cache: KeyCache::new(0),
+                protocol_version: version,
+            },
+            _drain: drain,
+        })
+    }
+
+    /// `<Conn as Sink<ClientToRelayMsg>>::start_send`, then a flush so that the
+    /// websocket's frame queue does not grow.  0 = accepted, 21 = ExceedsMaxPacketSize,
+    /// 22 = EmptyPacket, 23 = stream error.
+    pub async fn start_send(&mut self, frame: ClientToRelayMsg) -> u64 {
+        let r = Pin::new(&mut self.conn).start_send(frame);
+        let code = match r {
+            Ok(()) => 0,
+            Err(SendError::ExceedsMaxPacketSize { .. }) => 21,
+            Err(SendError::EmptyPacket { .. }) => 22,
+            Err(SendError::StreamError { .. }) => 23,
+        };
+        if code == 0 && self.conn.flush().await.is_err() {
+            return 23;
+        }
+        code
+    }
+}
